@@ -41,6 +41,7 @@ MIN_REACH = {
     "scatter_series_of_more_than_51_points": {"quick": 8, "thorough": 150},
     "heat_maps_drawn_under_a_non_default_mesh_shading_setting": {"quick": 6, "thorough": 100},
     "colour_maps_given_as_colormap_objects": {"quick": 8, "thorough": 150},
+    "heat_map_colour_bars_counted": {"quick": 8, "thorough": 150},
     "panels_compared": {"quick": 150, "thorough": 2500},
     "hist_series_compared": {"quick": 80, "thorough": 1200},
     "heatmap_cells_compared": {"quick": 500, "thorough": 8000},
@@ -783,6 +784,12 @@ def run_case(ctx, case):
             ctx.count("panels_compared")
     elif base in ("heatmap", "auto_heatmap"):
         axes = data_axes(fig)
+        if base == "heatmap" and not grid and kw.get("colorbar", True) is not False:
+            # the colour scale of a heat map is shown by ITS colour bar: one, in this figure
+            ncb = len([a for a in fig.axes if a.get_label() == "<colorbar>"])
+            ctx.count("heat_map_colour_bars_counted")
+            if ncb != 1:
+                bad.append("the heat map's figure has %d colour bars (the colour scale is not shown / shown twice)" % ncb)
         rows = ds["r"].values.tolist() if grid and "r" in ds.dims else [None]
         cols = ds["c"].values.tolist() if grid and "c" in ds.dims else [None]
         for (i, rv), (j, cv) in itertools.product(enumerate(rows), enumerate(cols)):
